@@ -35,6 +35,8 @@ func checkC02(w *World, r *Report) {
 	ruleSmuxBuffers(w, r, "R02.7")
 	r.Rule("R02.6", "every serving goroutine works on the stream accepted for it (no shared re-assigned variable)", 1)
 
+	r.Rule("R02.12", "a deadline armed on the shared session while one logical connection is accepted is disarmed before the session serves the next (else whether connection B can be opened depends on when A was)", 1)
+	ruleDeadlinePairing(w, r, "R02.12")
 	r.Rule("R02.11", "no type assertion that can panic in the server's per-connection code: a failure of one logical connection (an upstream that cannot be dialled) must not end the process that carries the others", 1)
 	ruleNoPanickingAssertionOnPeerPath(w, r, "R02.11", pkgFuncs(w, "/internal/server"), ": the panic is raised on the goroutine of one logical connection, nothing recovers it, and every other logical connection of every session dies with the process")
 	r.Rule("R02.10", "the handler of one logical connection never closes the server's shared multiplexer session", 1)
@@ -240,6 +242,8 @@ func checkC14(w *World, r *Report) {
 	r.Rule("R14.6", "a wrapper is marked closed only by its Close (else later closes are skipped and the descriptor leaks)", 4)
 	r.Rule("R14.9", "every Lock in the client's upstream and listener code and in the server package is released on every path out of the function (a failed reconnect that returns with the upstream mutex held parks every later logical connection for good)", 2)
 	ruleLockPairing(w, r, "R14.9", pkgFuncs(w, "/internal/client/upstream", "/internal/client/listener", "/internal/server"))
+	r.Rule("R14.10", "Close of a connection object closes the carrier it owns on every returning path, unless the object was found closed already (a failed goodbye must not keep the socket)", 3)
+	c14CloseReleasesCarrierOnEveryPath(w, r)
 	r.Rule("R14.8", "AcceptConnection closes the carrier on every failing return, unless the error says the carrier is closed already (a peer that left is not a closed carrier)", 1)
 	c14AcceptFailureClosesCarrier(w, r)
 	r.Rule("R14.7", "Close of a carrier wrapper never waits for the peer without a bound (goodbye frames and flushes need a deadline)", 5)
@@ -335,6 +339,8 @@ func checkC15(w *World, r *Report) {
 		// the mutex of the table of all DNS peers (a mutex field of the listener object), or of a server object
 		return strings.HasSuffix(fieldOwner(m), ".ServerDnsListener") || strings.HasPrefix(fieldOwner(m), "server.")
 	}, "every other peer that needs this lock (new sessions, closes, the pruner) waits as long as this one peer chooses")
+	r.Rule("R15.9", "Close of a carrier wrapper never writes to the peer without a bound (a peer that stopped reading holds the closing goroutine, and a second unsynchronised writer on a websocket)", 5)
+	ruleCloseDoesNotWaitForPeer(w, r, "R15.9")
 	r.Rule("R15.8", "a listener's accept loop is left only on the server's shutdown flag or a closed listener, never on a classification of an Accept error", 1)
 	c15ListenerLoopSurvivesAcceptErrors(w, r)
 	r.Rule("R15.7", "no byte sequence of one peer's handshake can panic the process that serves all the others: every index / slice expression of the handshake parsers is proven in bounds", 2)
@@ -419,6 +425,8 @@ func checkC17(w *World, r *Report) {
 	c01WriteCountsRule(w, r, "R17.7")
 	r.Rule("R17.8", "a deadline armed on a connection is disarmed in both directions before the connection lives on as a session (a left-over write deadline loses the target's answer and the end-of-stream)", 1)
 	ruleDeadlinePairing(w, r, "R17.8")
+	r.Rule("R17.13", "the smux receive window, which all logical connections of a session share, is not reduced below the library default (one unread connection keeps the others from ever seeing their end-of-stream)", 1)
+	ruleSmuxBuffers(w, r, "R17.13")
 	r.Rule("R17.12", "every serving goroutine works on the stream accepted for it: a failure of one logical connection closes its own stream, never the one accepted last", 1)
 	ruleLoopVarEscape(w, r, "R17.12", connPkgs, "the error path of one connection closes whichever stream the shared variable holds then — a healthy connection gets end-of-stream without the data still due")
 	r.Rule("R17.11", "sequence and ack numbers of the DNS carrier are used only in wrap-safe ways (a transfer that crosses 65536 chunks still drains and ends)", 6)
